@@ -814,7 +814,7 @@ func run(c *vf.Ctx) {
 					}
 					return st[0]
 				}
-				c.Violation("race:queue:"+rp.Key, fmt.Sprintf("data race inside package queue (%d reports): %s <-> %s", rp.Count, top(rp.StackA), top(rp.StackB)), rp)
+				c.Violation("race:queue:"+rp.Pair, fmt.Sprintf("data race inside package queue (%d reports): %s <-> %s", rp.Count, top(rp.StackA), top(rp.StackB)), rp)
 			} else {
 				otherRaces++
 				if len(otherList) < 5 {
